@@ -4,6 +4,7 @@ import (
 	"fmt"
 	"go/constant"
 	"go/token"
+	"go/types"
 	"sort"
 	"strings"
 
@@ -113,6 +114,16 @@ func runC16(a *A) {
 			env := &Env{a: a, Rank: map[string]int{}, Flags: map[string]bool{}, Assume: func(t *Term, v ssa.Value) Tri {
 				if v == matched {
 					return tri(cs.m)
+				}
+				// a NULL/missing key component skips the lookup (NULL equals nothing): "matched" presupposes
+				// that the lookup ran, i.e. the boolean flag collected over the key components is false
+				if ph, ok := v.(*ssa.Phi); ok && cs.m && isBoolFlagPhi(ph) {
+					return F
+				}
+				if bo, ok := v.(*ssa.BinOp); ok && cs.m && bo.Op == token.EQL && isNilConst(bo.Y) {
+					if _, isIface := bo.X.Type().Underlying().(*types.Interface); isIface {
+						return F // no key component is NULL
+					}
 				}
 				if bo, ok := v.(*ssa.BinOp); ok && bo.Op == token.EQL {
 					if tt := TermOf(bo.X, nil); tt.Kind == "field" && tt.Field == jtF {
@@ -303,4 +314,17 @@ func (a *A) ruleOnOperandSides() {
 	if n == 0 {
 		a.Und(fname(fn)+"#on-operand-sides", fn.Pos(), "no store to JoinOnPair.StreamField/TableField found")
 	}
+}
+
+// isBoolFlagPhi: a boolean phi (transitively) fed only by the constants true/false.
+func isBoolFlagPhi(ph *ssa.Phi) bool {
+	if bt, ok := ph.Type().Underlying().(*types.Basic); !ok || bt.Kind() != types.Bool {
+		return false
+	}
+	for _, l := range phiLeaves(ph) {
+		if k, ok := l.(*ssa.Const); !ok || k.Value == nil {
+			return false
+		}
+	}
+	return true
 }
